@@ -318,9 +318,14 @@ def instantiate(rng, pat, shape):
             ci += 1
             d = shape[ax] if ax < ndim else rng.choice([1, 2, 3])
             e = make_entry(rng, k, d, alen)
-            if e is None:     # an in-range int on an empty axis does not exist: use a slice
+            if e is None:     # an in-range int on an empty axis does not exist
+                if any(c in "aAbB" for c in pat):
+                    return None      # (a slice in its place could separate the index arrays: outside the grammar)
                 e = _slice(rng, d, +1)
             out.append(e)
+    lens = {len(e[1]) for e in out if e[0] == "a"}
+    if len(lens) > 1:
+        return None                  # several index arrays must have one length (grammar of the property)
     return out
 
 
@@ -440,7 +445,10 @@ def api_cases(tier, seed):
                 spec = vlib.gen_array_spec(rng, shape=shape, fills=(0, 0, 3, -1), formats=(fmt,))
                 if fmt == "gcxs" and nd >= 2:
                     spec["caxes"] = next(ca_cycle)
-                cases.append({"base": [spec], "op": None, "index": instantiate(rng, dpat, shape),
+                inst = instantiate(rng, dpat, shape)
+                if inst is None:
+                    continue
+                cases.append({"base": [spec], "op": None, "index": inst,
                               "unwrap": rng.random() < 0.3, "cls": "".join(dpat)})
     # unsigned coordinates (D6): slices of both signs, ints, arrays
     for _ in range(60 if tier == "quick" else 300):
@@ -450,7 +458,10 @@ def api_cases(tier, seed):
         pat = [rng.choice("isnfa") for _ in range(rng.randint(1, nd))]
         if not in_grammar_kinds(pat):
             continue
-        cases.append({"base": [spec], "op": None, "idx_dtype": "uint8", "index": instantiate(rng, pat, shape),
+        inst = instantiate(rng, pat, shape)
+        if inst is None:
+            continue
+        cases.append({"base": [spec], "op": None, "idx_dtype": "uint8", "index": inst,
                       "cls": "u8:" + "".join(pat)})
     # GCXS with unsigned index arrays (numba typing of convert_to_flat)
     for _ in range(20 if tier == "quick" else 100):
@@ -470,7 +481,10 @@ def api_cases(tier, seed):
             dpat = decorate(rng, pat, nd, mode)
             if not in_grammar_kinds(dpat):
                 continue
-            cases.append({"base": base, "op": op, "index": instantiate(rng, dpat, rshape), "cls": "op:" + "".join(dpat)})
+            inst = instantiate(rng, dpat, rshape)
+            if inst is None:
+                continue
+            cases.append({"base": base, "op": op, "index": inst, "cls": "op:" + "".join(dpat)})
     # directed: the documented defect witnesses
     a5 = {"shape": [5], "coords": [[0], [1], [2], [3], [4]], "data": [1, 2, 3, 4, 5], "fill": 0, "caxes": None}
     y = vlib.gen_array_spec(random.Random(1), shape=[2, 3, 4], fills=(0,), density=1.0)
@@ -649,11 +663,15 @@ def campaign_index(build, tier, seed, report, budget=1):
                           vlib.sarr_lit(r["out"]), vlib.sarr_lit(r["np"])))
     verdicts, tags = judge_and_tags(build, "c02_getitem", "gcase", "judge_getitem", "tag_getitem", lits)
     hist = {}
+    n_outside = 0
     for t in tags:
         hist[tag_name(t)] = hist.get(tag_name(t), 0) + 1
     for i, code in verdicts:
         c, r = kept[i]
         kind, cl = code % 10, code // 10
+        if cl == 9 and kind != 9:
+            n_outside += 1       # the index left the property's grammar (judge's in_grammar): not a violation
+            continue
         what = KIND_WHAT.get(kind)
         vkind = KINDS.get(kind, "value")
         if cl == 14:
@@ -703,6 +721,7 @@ def campaign_index(build, tier, seed, report, budget=1):
                    "uint8 coordinates; inputs that are outputs of matmul/reduce/reshape/transpose/concatenate/asformat; "
                    "kernels on raw arrays. distinct = distinct (index, input representation) pairs + distinct kernel inputs")
     cov["skipped_inputs"] = skipped
+    cov["outside_grammar_dropped"] = n_outside
     cov["branch_tags"] = dict(sorted(hist.items()))
     cov["branch_tags"].update(khist)
     cov["classes"] = len({c.get("cls") for c, _ in kept})
